@@ -591,6 +591,18 @@ def corpus() -> List[dict]:
         h1case(f"obs_text_{name.decode().lower()}_{how}", [HT.obs_text(HT.request_bytes(None, "plain"), name, how, ob), follow], waits={1: 0.2},
                cfg={"server_names": ["x"]} if name == b"Host" else {})
         h1case(f"obs_text_ws_{name.decode().lower()}_{how}", [HT.obs_text(ws, name, how, ob)], scripts=("ws",))
+    # header names in the case the client chose, handed to the streams as written (`h11_pass_raw_headers`): each handshake header alone in
+    # another style than the rest, all in one style; complete handshakes (accepted) and one without key (400); a frame follows
+    for pname, style in [("all_Cap", lambda n: "Cap"), ("all_UPPER", lambda n: "UPPER"), ("all_mIxEd", lambda n: "mIxEd")] + \
+            [(f"only_{nm.decode()}_{st}", (lambda n, nm=nm, st=st: st if n == nm else ("Cap" if st == "lower" else "lower")))
+             for nm in (b"upgrade", b"connection", b"sec-websocket-key", b"sec-websocket-version", b"host") for st in ("Cap", "lower")]:
+        h1case(f"ws_header_names_raw_{pname}", [HT.recase_names(ws, style), b"\x81\x82\x00\x00\x00\x00hi"], scripts=("ws",), waits={1: 0.2},
+               cfg={"h11_pass_raw_headers": True})
+    h1case("ws_header_names_raw_no_key_only_upgrade_Cap", [HT.recase_names(ws.replace(b"sec-websocket-key: " + HS.WS_KEY + b"\r\n", b""),
+                                                                           lambda n: "Cap" if n == b"upgrade" else "lower")],
+           scripts=("ws",), cfg={"h11_pass_raw_headers": True})
+    h1case("ws_header_names_normalised_only_upgrade_Cap", [HT.recase_names(ws, lambda n: "Cap" if n == b"upgrade" else "lower"), b"\x81\x82\x00\x00\x00\x00hi"],
+           scripts=("ws",), waits={1: 0.2})
     h1case("obs_text_connection_keep_alive", [b"GET / HTTP/1.1\r\nHost: x\r\nConnection: k\xe9ep-alive\r\n\r\n", follow], waits={1: 0.2})
     h1case("obs_text_connection_close_token", [b"GET / HTTP/1.1\r\nHost: x\r\nConnection: close, \xff\r\n\r\n"])
     h1case("obs_text_h2c_connection", [b"GET / HTTP/1.1\r\nHost: x\r\nUpgrade: h2c\r\nConnection: Upgrade, HTTP2-Settings, \xa0\r\nHTTP2-Settings: AAMAAABkAAQAAP__\r\n\r\n"])
@@ -1036,7 +1048,7 @@ def run(ctx: Ctx) -> None:
     direct = [gen_direct(ctx.rng, i) for i in range(ctx.budget(500, 8000))]
     check_direct(ctx, direct)
     # HTTP/1 + WebSocket whole flow: LibWf / escape sites of total_h1 on adversarial direct-drive sessions of the real H11Protocol
-    HT.check(ctx, HT.obs_corpus() + [HT.gen_case(ctx.rng, i) for i in range(ctx.budget(250, 5000))])
+    HT.check(ctx, HT.obs_corpus() + HT.names_corpus() + [HT.gen_case(ctx.rng, i) for i in range(ctx.budget(250, 5000))])
     check_e2e(ctx, gen_e2e(ctx))
 
 
@@ -1044,7 +1056,7 @@ def search(ctx: Ctx) -> None:
     """a proof obligation or the correspondence broke: corpus of unusual-but-legal sequences, then grammar fuzz again"""
     check_e2e(ctx, corpus())
     check_direct(ctx, [gen_direct(ctx.rng, i) for i in range(ctx.budget(400, 12000))])
-    HT.check(ctx, HT.obs_corpus() + [HT.gen_case(ctx.rng, i) for i in range(ctx.budget(400, 8000))])
+    HT.check(ctx, HT.obs_corpus() + HT.names_corpus() + [HT.gen_case(ctx.rng, i) for i in range(ctx.budget(400, 8000))])
     check_e2e(ctx, gen_e2e(ctx))
 
 
